@@ -394,8 +394,7 @@ def oracle(c, results: list[dict], http: bool = False) -> list[dict]:
             ri, rj = results[i], results[j]
             if ri["now"] > rj["now"]:
                 continue
-            if (ri["mup"] is not None and rj["mup"] is not None
-                    and ri.get("pub") is not None and rj.get("pub") is not None and ri["pub"] > rj["pub"]):
+            if ri.get("pub") is not None and rj.get("pub") is not None and ri["pub"] > rj["pub"]:
                 fails.append({"clause": MONO_CLAUSE, "index": [i, j],
                               "now": [ri["now"], rj["now"]], "pub": [ri["pub"], rj["pub"]],
                               "ast": [ri["ast"], rj["ast"]], "mup": [str(ri["mup"]), str(rj["mup"])]})
@@ -877,6 +876,60 @@ def mpd_root_attrs(body: str) -> dict | None:
     return dict(_ATTR_RE.findall(m.group(0))) if m else None
 
 
+def document_links(body: str) -> list:
+    """the URLs a manifest hands to the client for its own reload: text of every MPD/Location and
+    MPD/PatchLocation element (own reading: ElementTree, entities resolved)"""
+    import xml.etree.ElementTree as ET
+    out = []
+    try:
+        root = ET.fromstring(body.encode("utf-8"))
+    except Exception:  # noqa: BLE001
+        return out
+    for el in root.iter():
+        tag = el.tag.rsplit("}", 1)[-1]
+        if tag in ("Location", "PatchLocation") and el.text and el.text.strip():
+            u = urllib.parse.urlsplit(el.text.strip())
+            out.append((tag, u.path + ("?" + u.query if u.query else "")))
+    return sorted(set(out))
+
+
+def parse_document(body: str, now: int, first: dict) -> dict:
+    """a followed document: an MPD (same reading as Http.get) or an MPD patch (Patch@publishTime; the other
+    timing attributes are those of the manifest it patches)"""
+    import xml.etree.ElementTree as ET
+    r = {"now": now, "status": 200}
+    try:
+        root = ET.fromstring(body.encode("utf-8"))
+    except Exception:  # noqa: BLE001
+        return {"now": now, "status": 200, "ast": None, "mup": None, "tsbd": None}
+    if root.tag.rsplit("}", 1)[-1] == "Patch":
+        p = parse_iso_datetime(root.attrib.get("publishTime", ""))
+        o = parse_iso_datetime(root.attrib.get("originalPublishTime", ""))
+        r.update(kind="patch", ast=first["ast"], off=first["off"], pub=p[0] if p else None, pub_rendered=True,
+                 tsbd=first["tsbd"], tsbd_wellformed=True, mup=first["mup"], type="dynamic",
+                 original_pub=o[0] if o else None)
+        return r
+    at = dict(root.attrib)
+    r["kind"] = "mpd"
+    r["type"] = at.get("type")
+    a = parse_iso_datetime(at["availabilityStartTime"]) if "availabilityStartTime" in at else None
+    r["ast"], r["off"] = a if a else (None, None)
+    p = parse_iso_datetime(at["publishTime"]) if "publishTime" in at else None
+    r["pub"] = p[0] if p else None
+    r["pub_rendered"] = "publishTime" in at
+    r["tsbd"] = None
+    if "timeShiftBufferDepth" in at:
+        d = parse_iso_duration(at["timeShiftBufferDepth"])
+        if d:
+            r["tsbd"] = int(d[0]) if d[0].denominator == 1 else d[0]
+            r["tsbd_wellformed"] = d[1]
+    r["mup"] = None
+    if "minimumUpdatePeriod" in at:
+        d = parse_iso_duration(at["minimumUpdatePeriod"])
+        r["mup"] = (int(d[0]) if d[0].denominator == 1 else d[0]) if d else 0
+    return r
+
+
 class Http:
     """the booted application with fixture streams; `tears` gets synthetic timing references"""
 
@@ -962,6 +1015,8 @@ class Http:
             q.append(f"{name}=" + ("" if v is None else str(v)))
         if c.get("drift"):
             q.append(f"drift={c['drift']}")
+        if c.get("patch"):
+            q.append("patch=1")
         return f"/dash/live/{c['stream']}/{c['manifest']}" + ("?" + "&".join(q) if q else "")
 
     def get(self, c) -> list[dict]:
@@ -981,7 +1036,10 @@ class Http:
                 resp = self.client.get(url)
             r = {"now": n, "status": resp.status_code}
             if resp.status_code == 200:
-                at = mpd_root_attrs(resp.get_data(as_text=True)) or {}
+                body = resp.get_data(as_text=True)
+                if c.get("want_links"):
+                    r["links"] = document_links(body)
+                at = mpd_root_attrs(body) or {}
                 r["type"] = at.get("type")
                 a = parse_iso_datetime(at["availabilityStartTime"]) if "availabilityStartTime" in at else None
                 r["ast"], r["off"] = a if a else (None, None)
@@ -1262,7 +1320,210 @@ def ch_manifest(ctx) -> Channel:
     return ch
 
 
+# ---------------------------------------------------------------- channel: chain (follow the server's own URLs)
+
+def chain_cases(http: Http):
+    """fixed, seed independent: every live template (and `patch=1` where the template supports patches) ×
+    start kind × minimumUpdatePeriod ∈ {-1, 0, absent, 3, 7} (disabled, defaulted, given) with the option coming
+    from the URL, from stored stream defaults or from the server default, eight one-second clock phases"""
+    from dashlive.server.manifests import manifest_map
+    base = day_us(2024, 2, 29) + 630 * US + 500_000
+    out = []
+    k = 0
+    variants = []
+    for name in sorted(http.manifests):
+        variants.append((name, False))
+        if "patch" in http.manifests[name]:
+            variants.append((name, True))
+    for name, patch in variants:
+        feats = http.manifests[name]
+        for start in ("today", "month", None, "now", "explicit", "epoch"):
+            for mup in (-1, 0, "absent", 3, 7):
+                k += 1
+                if mup != "absent" and "minimumUpdatePeriod" not in feats:
+                    continue
+                n1 = base + (k % 8) * US
+                c = {"manifest": name, "patch": patch, "nows": [n1], "steps": [3 * US] + ([9 * US] if k % 3 == 0 else []),
+                     "depth": ["absent", 30, None][k % 3], "mup": mup, "want_links": True, "interleave": k % 4 == 0}
+                c["start"] = {"utc": n1 - 3600 * US - 250_000, "off": 330} if start == "explicit" else start
+                src = k % 3
+                if src == 0:
+                    c.update(stream="bbb", sd=http.bbb_ref[0], ts=http.bbb_ref[1])
+                elif src == 1:
+                    c.update(stream="tears", sd=960, ts=240)
+                else:
+                    # the period comes from the stored stream defaults, the URL leaves it out
+                    c.update(stream="tears", sd=960, ts=240)
+                    if mup != "absent":
+                        c["sdefaults"] = {"mup": mup}
+                        c["mup"] = "absent"
+                out.append(c)
+    return out
+
+
+def link_vector(http: Http, c, link: str):
+    """the timing options a handed-on URL spells out, with the same defaults chain as a request:
+    (start token, depth, mup) – or None when it cannot be read"""
+    q = urllib.parse.parse_qs(urllib.parse.urlsplit(link).query, keep_blank_values=True)
+    d = http.defaults
+    sd = c.get("sdefaults") or {}
+    feats = http.manifests[c["manifest"]]
+
+    def num(name, key, attr):
+        if name in q:
+            v = q[name][-1]
+            return None if v in ("", "none") else int(v)
+        return sd.get(key, getattr(d, attr))
+    try:
+        if "start" in q and q["start"][-1] != "":
+            t = q["start"][-1]
+            if t in SYMBOLIC:
+                start = t
+            else:
+                p = parse_iso_datetime(t)
+                if p is None:
+                    return None
+                start = f"at:{p[0]}:{p[1]}"
+        else:
+            st = d.availabilityStartTime if "start" in q else sd.get("start", d.availabilityStartTime)
+            start = start_token(st)
+        depth = num("depth", "depth", "timeShiftBufferDepth")
+        mup = num("mup", "mup", "minimumUpdatePeriod") if "minimumUpdatePeriod" in feats else d.minimumUpdatePeriod
+    except ValueError:
+        return None
+    return (start, depth, mup)
+
+
+def chain_eval(http: Http, c, model_lines: dict):
+    """first manifest at nows[0], then every handed-on URL at nows[0] + step.  Returns
+    (disagreements, oracle failures, number of documents, tags)"""
+    http.prepare(c)
+    mc = http.model_case(c)
+    renders_mup = "minimumUpdatePeriod" in http.manifests[c["manifest"]]
+    r1 = http.get(c)[0]
+    dis, fails, docs, tags = [], [], 1, set()
+    if r1["status"] != 200:
+        return dis, oracle(mc, [r1], http=True), docs, tags
+    n1 = c["nows"][0]
+    fails += oracle(mc, [r1], http=True)
+    if r1.get("ast") is None:
+        return dis, fails, docs, tags
+    for tag, link in r1.get("links", []):
+        vec = link_vector(http, c, link)
+        for step in c["steps"]:
+            n2 = n1 + step
+            with http.appboot.Clock(EPOCH + datetime.timedelta(microseconds=n2)):
+                resp = http.client.get(link)
+            docs += 1
+            if resp.status_code != 200:
+                fails.append({"clause": "no live manifest for an accepted option set", "now": n2, "detail": resp.status_code,
+                              "link": link})
+                continue
+            r2 = parse_document(resp.get_data(as_text=True), n2, r1)
+            tags.add(f"{tag}->{r2.get('kind')}")
+            # Layer C: the two documents are one history of the requested option set
+            # (the followed request carries the resolved start as an explicit instant: the clauses about symbolic
+            # start values speak about the first document only)
+            hist = dict(mc, nows=[n1, n2], start={"utc": r1["ast"], "off": r1["off"] or 0})
+            for f in oracle(hist, [r1, r2], http=True):
+                if f.get("index") != 0:
+                    fails.append(dict(f, link=link, followed=tag))
+            # Layer B: the handed-on option vector and the followed document vs the model
+            hand, t2 = model_lines.get(("handon", n2), ("?", "?"))
+            orig = (start_token(mc["start"]), mc["depth"], mc["mup"])
+            hf = hand.split()
+            handed = (f"at:{hf[0]}:{hf[1]}", None if hf[2] == "-" else int(hf[2]), None if hf[3] == "-" else int(hf[3])) \
+                if len(hf) == 4 else None
+            if vec is not None and vec == handed:
+                want = t2
+                tags.add("vector=resolved")
+            elif vec is not None and vec == orig:
+                want = model_lines.get(("orig", n2), "?")
+                tags.add("vector=as-requested")
+            else:
+                dis.append({"what": "handed-on option vector is neither the requested one nor the model's handOn",
+                            "link": link, "link_vector": vec, "model_handOn": handed, "requested": orig})
+                continue
+            if r2.get("kind") == "patch":
+                got, exp = str(r2["pub"]), (want.split()[5] if len(want.split()) == 8 else want)
+            else:
+                got, exp = canon_http(r2, renders_mup), canon_http_model(want, r2, renders_mup)
+            if got != exp:
+                dis.append({"what": "followed document differs from the model", "link": link, "model": exp, "impl": got})
+    return dis, fails, docs, tags
+
+
+def chain_model_lines(http: Http, c) -> dict:
+    mc = http.model_case(c)
+    n1 = c["nows"][0]
+    keys, lines = [], []
+    rest = f"{start_token(mc['start'])} {opt_tok(mc['depth'])} {opt_tok(mc['mup'])} - {mc['sd']} {mc['ts']}"
+    for step in c["steps"]:
+        n2 = n1 + step
+        keys.append(("handon", n2))
+        lines.append(f"handon {n1} {n2} {rest}")
+        keys.append(("orig", n2))
+        lines.append(f"livetiming {n2} {rest}")
+    out = common.run_driver(lines)
+    res = {}
+    for k, o in zip(keys, out):
+        res[k] = tuple(x.strip() for x in o.split("|")) if k[0] == "handon" and "|" in o else o
+    return res
+
+
+def chain_fails(http: Http, c) -> list:
+    try:
+        ml = chain_model_lines(http, c)
+    except Exception:  # noqa: BLE001
+        ml = {}
+    return chain_eval(http, c, ml)[1]
+
+
+def ch_chain(ctx) -> Channel:
+    ch = Channel("chain", rule=(
+        "CHECKLIST §6, timing along manifest → MPD/Location / MPD/PatchLocation → next document: a fixed grid (every "
+        "live template, patch=1 where supported × 6 start kinds × mup ∈ {-1, 0, absent, 3, 7} × option source URL / "
+        "stored stream default / server default × 8 one-second clock phases); every URL the first manifest hands on is "
+        "fetched 3 s (and 9 s) later exactly as written; the option vector it spells must be the requested one or the "
+        "model's handOn (resolved start and depth, minimumUpdatePeriod unchanged), the followed MPD/patch must equal "
+        "the model's `followed`, and the oracle judges the two documents as one history of the requested options "
+        "(publishTime never decreases, …); non-trivial = a case whose manifest hands on at least one URL; distinct by case"))
+    try:
+        http = get_http()
+    except Exception as e:  # noqa: BLE001
+        ch.errors.append(f"app boot: {type(e).__name__}: {e}")
+        return ch
+    cases = chain_cases(http)
+    cases = sorted(cases, key=lambda c: (c["stream"], json.dumps(c.get("sdefaults"), sort_keys=True, default=str)))
+    try:
+        for c in cases:
+            try:
+                ml = chain_model_lines(http, c)
+            except Exception as e:  # noqa: BLE001
+                ch.errors.append(f"driver: {e}")
+                break
+            dis, fails, docs, tags = chain_eval(http, c, ml)
+            ch.evaluations += docs
+            ch.count("manifest=" + c["manifest"] + ("+patch" if c.get("patch") else ""))
+            ch.count("mup=" + ("absent" if c["mup"] == "absent" and not c.get("sdefaults") else
+                               "stream-default" if c.get("sdefaults") else "<=0" if c["mup"] <= 0 else ">0"))
+            for t in sorted(tags):
+                ch.count(t)
+            if docs > 1:
+                ch.nontrivial.add((c["manifest"], bool(c.get("patch")), c["stream"]) + case_key(http.model_case(c)))
+            for d in dis:
+                ch.disagreements.append(dict(d, via="chain", case=human_http(c), url=http.url(c)))
+            if fails:
+                ch.oracle_failures.append(failure_record("chain", human_http(c), fails, url=http.url(c)))
+            if docs > 1:
+                ch.sample({"url": http.url(c), "now": iso(c["nows"][0]), "tags": sorted(tags)}, limit=3)
+    finally:
+        http.restore()
+    return ch
+
+
 def channels(ctx):
+    yield ch_chain(ctx)
     yield ch_calendar(ctx)
     yield ch_mupdefault(ctx)
     yield ch_livetiming(ctx)
@@ -1297,6 +1558,11 @@ def search(ctx, disagreements):
     except Exception:  # noqa: BLE001
         return None
     try:
+        for c in [{k: v for k, v in d["case"].items() if k != "nows_iso"} for d in disagreements
+                  if d.get("via") == "chain" and "case" in d] + chain_cases(http):
+            f = unlisted(chain_fails(http, c))
+            if f:
+                return failure_record("chain", human_http(c), f, url=http.url(c))
         hseeds = [{k: v for k, v in d["case"].items() if k != "nows_iso"} for d in disagreements
                   if d.get("via") == "http" and "case" in d]
         for c in hseeds + fixed_http_cases(http) + [gen_http_case(rng, http) for _ in range(ctx.scale(1500, 6000))]:
@@ -1319,6 +1585,12 @@ def _run_failure(f: dict) -> list:
     if via == "calendar":
         return []
     c = {k: v for k, v in f["case"].items() if k not in ("nows_iso", "start_text")}
+    if via == "chain":
+        http = get_http()
+        try:
+            return chain_fails(http, c)
+        finally:
+            http.restore()
     if via == "http":
         http = get_http()
         try:
